@@ -201,7 +201,12 @@ func (it *interp) nilAtom(f frameID, v ssa.Value) *lin.Lin {
 func (it *interp) freshRep(d *disjunct, f frameID, v ssa.Value, t types.Type) rep {
 	switch kindOf(t) {
 	case kInt:
-		return rep{kind: kInt, lin: it.valAtom(f, v)}
+		// the range comes from t: for a synthetic key (a field of a struct value, an element of a
+		// tuple) v.Type() is the type of the enclosing value, not of the part
+		id := it.at.get(aVal, valKey{f, v}, fmt.Sprintf("%s@%d", v.Name(), f))
+		lo, hi, hl, hh := intRange(t)
+		it.at.setRange(id, lo, hi, hl, hh)
+		return rep{kind: kInt, lin: lin.Var(id)}
 	case kSlice:
 		l, c := it.lenAtom(f, v)
 		if _, isStr := t.Underlying().(*types.Basic); isStr {
